@@ -214,8 +214,10 @@ func drainTolerant(data []byte, maxCalls int) ([]*DemuxerData, bool) {
 }
 
 // HarnessC07Garbage: packets of a foreign PID with arbitrary header flags (including TEI, discontinuities, random
-// counters, unit starts) and junk payloads inserted at two arbitrary positions never change what PID 0x100 delivers
-func HarnessC07Garbage() {
+// counters, unit starts) and junk payloads inserted at two arbitrary positions never change what PID 0x100 delivers.
+// gpid: the foreign PID: above 0x100 (drained after it at end of stream), below it (0xff: its junk is drained first and
+// either fails to parse or parses to nothing), or the CAT PID 1 (parses to nothing by design)
+func HarnessC07Garbage(gpid int) {
 	s := &sStream{}
 	cc := uint8(5)
 	var first *sUnit
@@ -233,7 +235,7 @@ func HarnessC07Garbage() {
 	var pk [][]byte
 	pk = append(pk, s.pkts...)
 	for j := 0; j < 2; j++ {
-		m := &mPacket{pid: 0x101, hasPayload: true}
+		m := &mPacket{pid: uint16(gpid), hasPayload: true}
 		m.cc = vBits8(4)
 		m.pusi, m.tei = vnondetBool(), vnondetBool()
 		m.payload = make([]byte, 184)
